@@ -3,6 +3,8 @@ CONSTANTS
     Configs <- MCConfigs
     MaxAge = 100000000
     MaxDt = 2
+    MaxBDt = 2
+    LeaveOKStartsDuration = TRUE
     MaxBatch = 3
 INVARIANTS
     Verdict
